@@ -898,6 +898,8 @@ class Tr:
                 return self.strict([a, b], lambda c: wrap("str_eqb (%s) (%s)" % (c[0], c[1])), BOOL)
             if a.ty == INT and b.ty == INT:
                 return self.strict([a, b], lambda c: wrap("(%s =? %s)%%Z" % (c[0], c[1])), BOOL)
+            if a.ty == LIST(SUBPAIR) and b.ty == LIST(SUBPAIR):
+                return self.strict([a, b], lambda c: wrap("pyo_list_eqb pyo_sub_eqb (%s) (%s)" % (c[0], c[1])), BOOL)
             if a.ty == DYN and b.ty == INT and b.const == 0 and not isinstance(b.const, bool):
                 self.uses_dyn = True
                 return self.strict([a], lambda c: wrap("dyn_is_zero ops (%s)" % c[0]), BOOL)
@@ -1122,6 +1124,29 @@ class Tr:
     def call(self, n, env):
         if isinstance(n.func, ast.Name) and n.func.id in self.spec.get("local_calls", ()) and n.func.id not in env:
             return self.local_call(n, env)
+        if isinstance(n.func, ast.Attribute) and isinstance(n.func.value, ast.Name) and n.func.value.id not in env \
+                and n.func.value.id in self.spec.get("modules", {}) and n.func.attr in REGISTRY \
+                and REGISTRY[n.func.attr].get("file") == self.spec["modules"][n.func.value.id]:
+            # mod.f(positional and keyword arguments): a module-level function of lasio/mod.py translated earlier
+            # (render() has checked that mod is bound once in this module, by `from . import mod`)
+            r = REGISTRY[n.func.attr]
+            pnames = r["pnames"]
+            given = dict(zip(pnames, n.args))
+            if len(n.args) > len(pnames):
+                self.err(n, "too many arguments for %s" % n.func.attr)
+            for kw in n.keywords:
+                if kw.arg not in pnames or kw.arg in given:
+                    self.err(n, "keyword argument %s of %s" % (kw.arg, n.func.attr))
+                given[kw.arg] = kw.value
+            args = []
+            for pn, t in zip(pnames, r["args"]):
+                if pn in given:
+                    args.append(self.expr_want(given[pn], env, t))
+                elif is_type(t, "opt") and pn in r["none_defaults"]:
+                    args.append(E("None", t))
+                else:
+                    self.err(n, "argument %s of %s is not given" % (pn, n.func.attr))
+            return self.call_registered(n.func.attr, args, n)
         if isinstance(n.func, ast.Name) and n.func.id == "enumerate" and "enumerate" not in env and len(n.args) == 1 \
                 and len(n.keywords) == 1 and n.keywords[0].arg == "start":
             # enumerate(l, start=e)
@@ -1373,6 +1398,9 @@ class Tr:
         sink = self.spec.get("write_sink")
         elem_of = {}
         for s in stmts:
+            for src, repl in self.spec.get("stmt_rewrites", {}).items():
+                if ast.dump(s) == ast.dump(ast.parse(src).body[0]):
+                    s = ast.parse(repl).body[0]      # what the statement is translated as (see stmts)
             if isinstance(s, ast.Assign) and len(s.targets) == 1 and isinstance(s.targets[0], ast.Name) \
                     and isinstance(s.value, ast.Subscript) and isinstance(s.value.value, ast.Name):
                 elem_of[s.targets[0].id] = s.value.value.id
@@ -1489,6 +1517,19 @@ class Tr:
             return go(env)
         if isinstance(s, ast.Expr) and isinstance(s.value, ast.Constant) and isinstance(s.value.value, str):
             return go(env)          # docstring
+        # a file handed to a call is read by the callee: where it stands afterwards is not modelled, so the
+        # variable is not available until it is assigned again
+        heads = [s] if isinstance(s, (ast.Assign, ast.AugAssign, ast.Expr, ast.Return)) else \
+            [s.test] if isinstance(s, (ast.If, ast.While)) else [s.iter] if isinstance(s, ast.For) else []
+        passed = {a.id for h in heads for c in ast.walk(h) if isinstance(c, ast.Call)
+                  for a in list(c.args) + [k.value for k in c.keywords]
+                  if isinstance(a, ast.Name) and env.get(a.id) == FILE and not (isinstance(c.func, ast.Name) and c.func.id == "enumerate")}
+        if passed:
+            if not isinstance(s, (ast.Assign, ast.Expr)):
+                self.err(s, "a file is handed to a call in this kind of statement")
+            go_after = go
+            go = lambda env2: go_after({k: (None if k in passed and not (isinstance(s, ast.Assign) and k in self.assigned([s], [])) else v)
+                                        for k, v in env2.items()})
         if self.is_logger_call(s) and "logger" not in env:
             return go(env)          # logging is not translated (its arguments are assumed not to raise)
         sink = self.spec.get("write_sink")
@@ -1713,12 +1754,19 @@ class Tr:
             # a, b = <pair>
             names = [x.id for x in tg.elts if isinstance(x, ast.Name)]
             e = self.expr(v, env)
-            if len(names) != len(tg.elts) or not is_type(e.ty, "tuple") or len(e.ty) - 1 != len(names) or e.partial:
+            if len(names) != len(tg.elts) or not is_type(e.ty, "tuple") or len(e.ty) - 1 != len(names):
                 self.err(s, "unsupported tuple assignment")
             env2 = dict(env)
             for nm, t in zip(names, e.ty[1:]):
                 self.ctype(t, s)
                 env2[nm] = t
+                self.bind_count[nm] = self.bind_count.get(nm, 0) + 1
+                self.alias.pop(nm, None)
+            if e.partial:
+                if self.handlers or self.loop_ret:
+                    self.err(s, "tuple assignment from an operation that may raise, in this context")
+                self.need_partial(s)
+                return "obind (%s) (fun '(%s) =>\n%s)" % (e.code, ", ".join(self.var(nm) for nm in names), go(env2))
             return "let '(%s) := %s in\n" % (", ".join(self.var(nm) for nm in names), e.code) + go(env2)
         if isinstance(tg, ast.Attribute) and isinstance(tg.value, ast.Subscript) and isinstance(tg.value.value, ast.Name) \
                 and is_type(env.get(tg.value.value.id), "list"):
@@ -2252,6 +2300,9 @@ class Tr:
                 ret=spec["ret"], partial=self.fn_partial, ops=needs_ops, extra=list(spec.get("extra_binders", [])),
                 file=spec["file"] if not spec.get("cls") and not spec.get("translator") else None,
                 mutator=bool(spec.get("mutator")),
+                pnames=[p for p, t in spec["params"] if t is not None],
+                none_defaults=[a.arg for a, d in zip(fn.args.args[len(fn.args.args) - len(fn.args.defaults):], fn.args.defaults)
+                               if isinstance(d, ast.Constant) and d.value is None],
                 self_attrs=list(spec.get("self_attrs", {})))
         return "\n".join(out)
 
@@ -2517,6 +2568,14 @@ class BlockTr(Tr):
             self.err(fn, "expected exactly one anchor statement (%s), found %d" % (
                 self.spec.get("anchor") or self.spec.get("anchor_if"), len(found)))
         frag = found[0]
+        if "before" in self.spec:
+            # ... together with the `before` statements in front of the anchor
+            host = [b for node in ast.walk(fn) for field in ("body", "orelse", "finalbody")
+                    for b in [getattr(node, field, None)] if isinstance(b, list) and frag[0] in b][0]
+            i = host.index(frag[0])
+            if i < self.spec["before"]:
+                self.err(fn, "fewer than %d statements before the anchor" % self.spec["before"])
+            frag = host[i - self.spec["before"]:]
         if "length" in self.spec:
             frag = frag[:self.spec["length"]]       # ... or only the first statements of it
         if "until" in self.spec:
@@ -2793,6 +2852,14 @@ SPECS += [
          module_regexes={"sow_regex": "rx_sow"},
          module_consts_decl={"defaults.HYPHEN_SUBS": LIST(STR), "defaults.READ_SUBS": DICT(STR, LIST(SUBPAIR))},
          ret=TUPLE(INT, LIST(SUBPAIR))),
+    dict(consts_only=True, file="reader.py", module_consts_decl={"defaults.READ_POLICIES": DICT(STR, LIST(STR))}),
+    dict(py="read", file="las.py", cls="LASFile", coq="py_inspect_twice", translator=BlockTr,
+         anchor_if="recommended_regexp_subs != regexp_subs and accept_regexp_sub_recommendations", before=2, length=3,
+         result="(n_columns, regexp_subs)", modules={"reader": "reader.py"},
+         params=[("file_at_k", FILE), ("first_line", INT), ("last_line", INT), ("regexp_subs", LIST(SUBPAIR)),
+                 ("ignore_data_comments", STR), ("line_splitter", FUNC([STR], LIST(JOINED))),
+                 ("accept_regexp_sub_recommendations", BOOL)],
+         stmt_rewrites={"file_obj.seek(k)": "file_obj = file_at_k"}, ret=TUPLE(INT, LIST(SUBPAIR))),
     dict(py="get_section_widths", file="writer.py", cls=None, coq="py_get_section_widths",
          params=[("section_name", None), ("items", LIST(ITEM)), ("version", None), ("order_func", FUNC([STR], STR))],
          locals={"section_widths": DICT(STR, OPT(INT)), "middle_widths": LIST(INT)}, ret=DICT(STR, OPT(INT))),
@@ -2901,15 +2968,19 @@ def render_literal(node, ty, what):
     bad("no rendering for type %s" % (ty,))
 
 
+def check_module_import(using_tree, mod):
+    imps = binders_of(using_tree.body, mod)
+    if len(imps) != 1 or not (isinstance(imps[0], ast.ImportFrom) and imps[0].level == 1 and imps[0].module is None
+                              and any(a.name == mod and a.asname is None for a in imps[0].names)):
+        raise TranslateError("%s is not bound exactly once by `from . import %s`" % (mod, mod))
+
+
 def module_constant(repo, using_tree, qual, ty):
     """`mod.NAME` used in a translated function of lasio/<using file>: mod is bound once there, by
     `from . import mod`; NAME is bound once at module level of lasio/mod.py, to a literal; nothing in the
     package assigns into it, deletes from it or calls a mutating method on it (aliases are not followed)"""
     mod, name = qual.split(".")
-    imps = binders_of(using_tree.body, mod)
-    if len(imps) != 1 or not (isinstance(imps[0], ast.ImportFrom) and imps[0].level == 1 and imps[0].module is None
-                              and any(a.name == mod and a.asname is None for a in imps[0].names)):
-        raise TranslateError("%s is not bound exactly once by `from . import %s`" % (mod, mod))
+    check_module_import(using_tree, mod)
     path = os.path.join(repo, "lasio", mod + ".py")
     tree = ast.parse(open(path, encoding="utf-8").read())
     bs = binders_of(tree.body, name)
@@ -2983,8 +3054,22 @@ def render(repo):
         path = os.path.join(repo, "lasio", spec["file"])
         if path not in trees:
             trees[path] = ast.parse(open(path, encoding="utf-8").read())
+        if spec.get("consts_only"):
+            # module-level constants used by functions that are not translated themselves
+            for qual, ty in spec["module_consts_decl"].items():
+                cname = "py_const_" + qual.replace(".", "_")
+                code = module_constant(repo, trees[path], qual, ty)
+                if consts_done.setdefault(cname, ty) != ty:
+                    raise TranslateError("%s declared with two types" % qual)
+                out.append("(* ---- %s (lasio/%s.py) ---- *)" % (qual, qual.split(".")[0]))
+                out.append("Definition %s : %s :=\n  %s.\n" % (cname, coq_type(ty), code))
+            continue
         fn = find_function(trees[path], spec)
         check_not_rebound(trees[path], spec, fn)
+        for mod, modfile in spec.get("modules", {}).items():
+            check_module_import(trees[path], mod)
+            if modfile != mod + ".py" or mod in Tr(spec).assigned(fn.body, []):
+                raise TranslateError("%s: the module name %s" % (spec["py"], mod))
         if "module_consts_decl" in spec:
             spec["module_consts"] = {}
             for qual, ty in spec["module_consts_decl"].items():
